@@ -491,7 +491,7 @@ pub fn gen(seed: u64, tier: &str, w: &mut impl Write, stats: &mut Stats) {
         let (sub, mut r) = rng.fork();
         let kind = r.below(10); // 0..=4 bounded faults (C02), 5..=7 blackout / unbounded loss (C03), 8..=9 free
         let acked = if kind <= 4 { true } else { r.chance(7, 10) };
-        let seg = *r.pick(&[16u64, 20, 32, 48]);
+        let seg = *r.pick(&[16u64, 20, 32, 48, 18, 21, 27]);
         let delay = *r.pick(&[0u64, 0, 50, 700]);
         let imm = r.chance(1, 2);
         let maxc = 2 + r.below(3);
